@@ -31,9 +31,11 @@ HookKinds == {"ok", "funcVar", "imported", "importedBlank", "importedUnexported"
 Extras == {"none", "all", "fewer", "wrong", "wider"}
 \* argAny: the method's first additional argument is an interface{} (then an int parameter of the hook is too narrow)
 \* shared: the same hook function also serves an earlier method of the interface, which it fits
+\* namesake: an earlier method of the interface has a hook of ANOTHER package that is called the same (a local
+\* Audit next to ext.Audit) and has another shape; a hook is a function, not a name
 Cfg == [style: Styles, recv: BOOLEAN, srcPtr: BOOLEAN, dstPtr: BOOLEAN, retErr: BOOLEAN, nargs: {0, 2},
         which: {"pre", "post"}, hDstPtr: BOOLEAN, hSrcPtr: BOOLEAN, hErr: BOOLEAN, hExtra: Extras, kind: HookKinds,
-        argAny: BOOLEAN, shared: BOOLEAN]
+        argAny: BOOLEAN, shared: BOOLEAN, namesake: BOOLEAN]
 
 \* configurations that make sense: extra-parameter variants need additional arguments to relate to;
 \* the shape variants of a broken hook are explored with the simplest pointer/extra choice
@@ -49,6 +51,7 @@ Sensible(c) == /\ (c.nargs = 0 => c.hExtra = "none")
                /\ (c.hExtra = "wider" => c.kind = "ok")
                \* a second user of the hook is explored for local hooks, on the plainest method shape
                /\ (c.shared => c.kind = "ok" /\ ~c.recv /\ ~c.argAny)
+               /\ (c.namesake => c.kind \in {"ok", "imported"} /\ ~c.recv /\ ~c.argAny /\ ~c.shared /\ c.nargs = 0 /\ c.style = "return")
 
 VARIABLES cfg, pc, fit
 vars == <<cfg, pc, fit>>
@@ -117,6 +120,7 @@ AdaptSound == Done /\ ~fit.reject =>
                   /\ (fit.call.args[2] = "*SRC" => cfg.srcPtr /\ ~cfg.hSrcPtr)
 
 \* the verdict on a hook is a matter of this method and this hook alone: whether the function also
-\* serves another method changes nothing (Fits does not read cfg.shared)
+\* serves another method, or another function of the same name serves one, changes nothing (Fits and Render
+\* read neither cfg.shared nor cfg.namesake)
 Emit == Done => PrintT(<<"CASE", ToJson([cfg |-> cfg, fit |-> fit])>>)
 =============================================================================
